@@ -319,11 +319,11 @@ def _raising(chunks, exc):
 
 
 def encode_request(spec):
-    _t, ver, verb, args, kind, payload = spec
+    _t, ver, verb, args, kind, payload = spec[:6]
     sink = _Sink()
     if ver == 3:
         r = protocol.ProtocolThreeRequester(sink)
-        r.set_headers({b"Software version": b"x"})
+        r.set_headers({} if "nohdr" in spec[6:] else {b"Software version": b"x"})
     elif ver == 2:
         r = protocol.SmartClientRequestProtocolTwo(sink)
     else:
@@ -352,7 +352,7 @@ def encode_request(spec):
 
 
 def build_response(spec):
-    _t, ver, ok, args, kind, payload = spec
+    _t, ver, ok, args, kind, payload = spec[:6]
     cls = request.SuccessfulSmartServerResponse if ok else request.FailedSmartServerResponse
     if kind == "none":
         return cls(tuple(args))
@@ -370,10 +370,12 @@ def build_response(spec):
 
 
 def encode_response(spec):
-    _t, ver, ok, args, kind, payload = spec
+    _t, ver, ok, args, kind, payload = spec[:6]
     out = []
     if ver == 3:
         r = protocol.ProtocolThreeResponder(out.append)
+        if "nohdr" in spec[6:]:
+            r._headers = {}          # grammar dimension: empty headers dict instead of {Software version}
         if kind == "error":
             r.send_error(terrors.SmartProtocolError(payload))
         elif kind == "unknown":
@@ -399,7 +401,7 @@ V1_ERROR_CODES = (b"norepository", b"NoSuchFile", b"FileExists", b"DirectoryNotE
 
 def expected_request(spec):
     """Normalised server-side observation for a request spec."""
-    _t, ver, verb, args, kind, payload = spec
+    _t, ver, verb, args, kind, payload = spec[:6]
     out = {"args": tuple(args), "ended": 1 if kind != "none" else 0, "post_body_error": None}
     if kind == "none":
         out["body"] = None
@@ -415,9 +417,17 @@ def expected_request(spec):
     return out
 
 
+def expected_at_server(spec):
+    if spec[2] == VERB_NOBODY and spec[4] != "none":
+        return observed_request(spec, [("args", tuple(spec[3]))])      # answered from the arguments alone
+    if spec[2] not in (VERB_BODY, VERB_NOBODY):
+        return observed_request(spec, [])                              # the verb is never run
+    return expected_request(spec)
+
+
 def observed_request(spec, rec):
     """Normalise REC for comparison with expected_request."""
-    _t, ver, verb, args, kind, payload = spec
+    _t, ver, verb, args, kind, payload = spec[:6]
     out = {"args": None, "ended": 0, "post_body_error": None, "body": None}
     chunks = []
     order = []
@@ -458,7 +468,7 @@ def observed_request(spec, rec):
 
 def expected_response(spec):
     """What a client must obtain from a response spec."""
-    _t, ver, ok, args, kind, payload = spec
+    _t, ver, ok, args, kind, payload = spec[:6]
     out = {"tuple": None, "raised": None, "body": None, "chunks": None, "stream_error": None}
     if kind == "error":
         out["raised"] = ("ErrorFromSmartServer", (b"error", str(terrors.SmartProtocolError(payload)).encode("utf-8")))
@@ -492,7 +502,7 @@ def expected_response(spec):
 
 def read_response(spec, proto, note=None):
     """Use the client-side response API the way callers do; returns the observation dict."""
-    _t, ver, ok, args, kind, payload = spec
+    _t, ver, ok, args, kind, payload = spec[:6]
     out = {"tuple": None, "raised": None, "body": None, "chunks": None, "stream_error": None}
     expect_body = kind in ("body", "stream", "stream_fail", "stream_exc")
     if note:
@@ -662,11 +672,8 @@ class ServerPushTarget:
             raise HarnessError("encoded request lacks its version marker")
         self.full_wire = wire
         self.wire = wire[len(marker):]
-        self.expected = expected_request(spec)
-        if spec[2] == VERB_NOBODY and spec[4] != "none":
-            self.expected = observed_request(spec, [("args", tuple(spec[3]))])      # answered from the arguments
+        self.expected = expected_at_server(spec)
         if spec[2] not in (VERB_BODY, VERB_NOBODY):
-            self.expected = observed_request(spec, [])       # the verb is never run
             if ver == 3:
                 rs = ("resp", 3, False, (b"UnknownMethod", spec[2]), "none", None)
             else:
@@ -975,6 +982,11 @@ class _Sock:
 
 
 class _PipeMedium(smedium.SmartServerPipeStreamMedium):
+    def terminate_due_to_error(self):
+        import sys
+        self.hx.terminated = sys.exc_info()[1]
+        smedium.SmartServerPipeStreamMedium.terminate_due_to_error(self)
+
     def _build_protocol(self):
         self.hx.on_build()
         p = smedium.SmartServerPipeStreamMedium._build_protocol(self)
@@ -983,6 +995,11 @@ class _PipeMedium(smedium.SmartServerPipeStreamMedium):
 
 
 class _SocketMedium(smedium.SmartServerSocketStreamMedium):
+    def terminate_due_to_error(self):
+        import sys
+        self.hx.terminated = sys.exc_info()[1]
+        smedium.SmartServerSocketStreamMedium.terminate_due_to_error(self)
+
     def _build_protocol(self):
         self.hx.on_build()
         p = smedium.SmartServerSocketStreamMedium._build_protocol(self)
@@ -1017,7 +1034,7 @@ class ServerMediumTarget:
         self.expected_rec = []
         for s in specs:
             if s[0][2] in (VERB_BODY, VERB_NOBODY):
-                self.expected_rec.append(expected_request(s[0]))
+                self.expected_rec.append(expected_at_server(s[0]))
 
     def on_build(self):
         # the serve loop starts to look for the next request: the previous one was reported complete
@@ -1038,6 +1055,11 @@ class ServerMediumTarget:
                 raise Stop([("%s:keeps-reading-at-eof" % self.name, {"sizes": list(self.sizes)})])
             return b""
         if self.mode == "count":
+            if self.pos in self.ends:
+                k = self.ends.index(self.pos) + 1
+                if self.out.value() != b"".join(self.responses[:k]):
+                    raise Stop([("%s:reads-on-before-the-request-is-answered" % self.name,
+                                 {"sizes": list(self.sizes), "requests_complete": k, "written": self.out.value()})])
             end = [e for e in self.ends if e > self.pos][0]
             left = end - self.pos
             if n > left:
@@ -1066,6 +1088,7 @@ class ServerMediumTarget:
         self.sizes = []
         self.builds = []
         self.cur = None
+        self.terminated = None
         self.out = _Out()
         t = MemoryTransport("memory:///")        # private store per execution
         t.put_bytes("f", FILE_CONTENT)
@@ -1080,15 +1103,21 @@ class ServerMediumTarget:
             raise
         except Exception as e:  # noqa
             return [("%s:exception:%s" % (self.name, innermost(e)), {"sizes": self.sizes, "error": repr(e)[:300]})]
-        if self.pos != len(self.data):
-            return [("%s:stopped-serving-early" % self.name, {"sizes": self.sizes, "pos": self.pos})]
+        if self.terminated is not None:
+            return [("%s:serve-terminated:%s" % (self.name, innermost(self.terminated)),
+                     {"sizes": self.sizes, "error": repr(self.terminated)[:300], "pos": self.pos, "responses_so_far": self.out.value()})]
         got = self.out.value()
         if got != self.expected_out:
             k = 0
             while k < len(self.responses) and got.startswith(b"".join(self.responses[:k + 1])):
                 k += 1
+            if k < len(self.responses) and got == b"".join(self.responses[:k]):
+                return [("%s:following-request-lost" % self.name,
+                         {"sizes": self.sizes, "requests_answered": k, "of": len(self.responses), "pos": self.pos})]
             return [("%s:responses-differ" % self.name,
                      {"sizes": self.sizes, "first_wrong_response": k, "expected": self.expected_out, "got": got})]
+        if self.pos != len(self.data):
+            return [("%s:stopped-serving-early" % self.name, {"sizes": self.sizes, "pos": self.pos})]
         recs = split_rec(REC)
         obs = []
         i = 0
@@ -1141,7 +1170,7 @@ def has_separator(args):
 def tag_of(spec):
     """Input classes whose violations get their own signature."""
     if spec[0] == "req":
-        _t, ver, verb, args, kind, payload = spec
+        _t, ver, verb, args, kind, payload = spec[:6]
         if ver < 3 and has_separator((verb,) + tuple(args)):
             return "[separator-in-args]"
         if verb == UNKNOWN:
@@ -1150,7 +1179,7 @@ def tag_of(spec):
             return "[answered-before-body]"
         return ""
     if spec[0] == "resp":
-        _t, ver, ok, args, kind, payload = spec
+        _t, ver, ok, args, kind, payload = spec[:6]
         if ver < 3 and (has_separator(args) or len(args) == 0):
             return "[separator-in-args]"
         if ver == 3 and kind in ("stream_fail", "stream_exc") and not payload[0]:
@@ -1192,6 +1221,33 @@ def request_specs(thorough):
         if ver == 3:
             out.append(("E", ("req", 3, UNKNOWN, (b"a",), "stream", [B1, B0])))
             out.append(("E", ("req", 3, VERB_NOBODY, (b"a",), "stream_err", [B1])))
+    return _headers_dimension(out, thorough)
+
+
+def _headers_dimension(specs, thorough):
+    """v3 messages start with a headers dict.  Thorough: always the real one ({Software version: ..}).
+    Quick: the empty dict for the whole grammar (the long constant headers part multiplies the
+    segmentations of every message by the same factor) plus slice H: real headers for one message of
+    every shape."""
+    if thorough:
+        return specs
+    out = []
+    seen_shapes = set()
+    for sl, spec in specs:
+        if spec[1] != 3:
+            out.append((sl, spec))
+            continue
+        out.append((sl, spec + ("nohdr",)))
+        if sl == "A" and spec[3] not in ((b"a",), (b"ok",), (b"NoSuchFile",)):
+            continue
+        p = spec[5]
+        n = len(p[0]) if isinstance(p, tuple) else len(p) if isinstance(p, list) else None
+        if spec[4] in ("stream", "stream_err", "stream_fail", "stream_exc", "readv") and n != 2:
+            continue
+        shape = (spec[2], spec[4])
+        if shape not in seen_shapes:
+            seen_shapes.add(shape)
+            out.append(("H", spec))
     return out
 
 
@@ -1226,7 +1282,7 @@ def response_specs(thorough):
         if ver == 3:
             out.append(("B", ("resp", 3, True, (), "error", "boom ü")))
             out.append(("B", ("resp", 3, True, (), "unknown", b"vf.some-verb")))
-    return out
+    return _headers_dimension(out, thorough)
 
 
 def raw_specs(thorough):
@@ -1270,7 +1326,7 @@ def make_push_target(spec):
 # ("medium", "pipe"|"socket", ((request spec, response spec), ...), mode)
 
 def response_for(req):
-    _t, ver, verb, args, kind, payload = req
+    _t, ver, verb, args, kind, payload = req[:6]
     if verb in (VERB_BODY, VERB_NOBODY):
         return ("resp", ver, True, (b"ok",), "none", None)
     if verb == UNKNOWN:
@@ -1295,7 +1351,7 @@ def real_verb_scenarios():
         out.append(((("req", ver, b"has", (b"f",), "none", None), ("resp", ver, True, (b"yes",), "none", None)),
                     (("req", ver, b"has", (b"nope",), "none", None), ("resp", ver, True, (b"no",), "none", None)),
                     hello(ver)))
-        out.append(((("req", ver, b"get", (b"nope",), "none", None), ("resp", ver, False, (b"NoSuchFile", b"/nope"), "none", None)),
+        out.append(((("req", ver, b"get", (b"nope",), "none", None), ("resp", ver, False, (b"NoSuchFile", b"./nope"), "none", None)),
                     hello(3 if ver < 3 else 1)))
     return out
 
@@ -1338,11 +1394,19 @@ def explore_item(item, acc, limit=None):
         acc.nt(repr(item))
     for sizes, verdict in s.verdicts:
         for sig, detail in verdict:
-            d = dict(detail)
-            d["item"] = repr(item)
-            d["wire_len"] = n
-            acc.violation(sig, d)
+            acc.violation(*finish_violation(sig, detail, item, n))
     return s
+
+
+def finish_violation(sig, detail, item, n):
+    d = dict(detail)
+    d["item"] = repr(item)
+    d["wire_len"] = n
+    if "[separator-in-args]" in sig:
+        # one class: the v1/v2 tuple encoding has no escaping, whatever the symptom is afterwards
+        d["symptom"] = sig.split(":", 1)[1]
+        sig = sig.split(":", 1)[0] + ":not-round-tripped"
+    return sig, d
 
 
 def smallest_per_signature(violations):
@@ -1365,3 +1429,32 @@ def replay_detail(detail):
         return run(ch) or []
     except Stop as stop:
         return (stop.args[0] if stop.args else []) or []
+
+
+def exhaustive(run, limit=2000000):
+    """Every choice sequence, no state cache (cross-check of the search on small inputs)."""
+    keys = set()
+    verdicts = []
+    execs = 0
+    stack = [()]
+    while stack:
+        prefix = stack.pop()
+        ch = Chooser(prefix)
+        ch.want_keys = True
+        try:
+            v = run(ch)
+        except Stop as stop:
+            v = stop.args[0] if stop.args else None
+        execs += 1
+        if execs > limit:
+            raise HarnessError("exhaustive enumeration exceeds %d executions" % limit)
+        if v:
+            verdicts.append((tuple(t[2] for t in ch.trace), v))
+        tr = ch.trace
+        for key, _m, _d in tr:
+            keys.add(key)
+        for i in range(len(prefix), len(tr)):
+            base = tuple(t[2] for t in tr[:i])
+            for alt in range(1, tr[i][1]):
+                stack.append(base + (alt,))
+    return keys, verdicts, execs
